@@ -41,6 +41,7 @@ var headerOnly = map[string]bool{"IPv4": true}
 func checkC08(c *core.Ctx) {
 	p := c.P
 	c.Explain = "Structural clauses of 'written checksums are correct; verification accepts exactly the correct ones', decided on the six emitters/verifiers (IPv4, TCP, UDP, ICMPv4, ICMPv6, GRE), on the shared pseudo-header helper and on checksum.go: (R8.1) on the ComputeChecksums path both checksum bytes (position taken from the final PutUint16 of x.Checksum) are stored as 0 before the summing call, the sum covers the header only for IPv4 and header+payload otherwise, the folded sum is what is stored into x.Checksum and then written; (R8.2) the protocol number passed to the pseudo-header sum is the same constant in SerializeTo, VerifyChecksum (and ComputeChecksum) of a type and is the IPProtocol whose metadata row decodes to that layer; (R8.3) each verifier returns Valid = (Fold(sum - stored) == stored) up to a protocol-specific disjunct, Correct = that folded value, Actual = stored, over contents+payload (contents only for IPv4); (R8.4) a post-fold map in the emitter (UDP 0 -> 0xffff) is applied by the verifier too; (R8.5) pseudo-header sums are consumed only by the shared helper, which adds protocol and both halves of the length; (R8.6) recognised-shape check of FoldChecksum (fold repeated until no carry) and ComputeChecksum (even byte <<8, odd byte unshifted, odd tail <<8, stride 2) — a shape that is recognised and wrong is a violation, an unrecognised one is undecided. Not decided: RFC 1071 arithmetic for all inputs, single-bit-flip detection."
+	r7 := c.Rule("R8.7", "T", "after the checksum has been computed over the buffer only the checksum field is written")
 	r1 := c.Rule("R8.1", "T", "emit: zero both checksum bytes -> sum the right span -> store the folded value -> write it")
 	r2 := c.Rule("R8.2", "T", "pseudo-header protocol constant agrees between emit, verify and the IPProtocol table")
 	r3 := c.Rule("R8.3", "T", "verify: Valid = Fold(sum - stored) == stored (plus protocol disjunct), Correct/Actual as defined, right span")
@@ -126,6 +127,29 @@ func checkC08(c *core.Ctx) {
 						z[k-off] = true
 					}
 				})
+				// nothing but the checksum field itself is written into the buffer after the sum was taken
+				late := core.ForwardSearch(ser, sum, func(i ssa.Instruction) bool {
+					if i == ssa.Instruction(put) {
+						return false
+					}
+					if !writesThrough(i, buf, 0) {
+						return false
+					}
+					// a store of the checksum bytes themselves is fine
+					if st, ok := i.(*ssa.Store); ok {
+						if ia, ok := st.Addr.(*ssa.IndexAddr); ok {
+							if k, ok := core.ConstFold(ia.Index); ok && (k == off || k == off+1) {
+								return false
+							}
+						}
+					}
+					return true
+				}, nil)
+				lateAt := ""
+				if late != nil {
+					lateAt = p.InstrPos(late)
+				}
+				r7.Check(late == nil, key+"writes-after-sum", p.InstrPos(sum), "only the checksum field is written after the sum is taken", "the buffer is still written at "+lateAt+" after the checksum was computed over it: the checksum covers whatever those bytes held before (stale buffer contents), so the emitted checksum is wrong for the bytes finally sent")
 				r1.Check(z[0] && z[1], key+"zero-before-sum", p.InstrPos(sum), fmt.Sprintf("bytes[%d], bytes[%d] = 0 before summing", off, off+1), fmt.Sprintf("the checksum bytes [%d],[%d] are not both cleared before the sum is taken: the emitted checksum depends on stale buffer contents / the previous checksum", off, off+1))
 				// span
 				arg := sum.Call.Args[0]
